@@ -1,8 +1,140 @@
-(* Msg/MsgInstrProofs.v -- C02: proofs about the instrumented parser model (MsgInstr.v). *)
+(* Msg/MsgInstrProofs.v -- C02: proofs about the instrumented parser model (MsgInstr.v), part 1:
+   the safety invariant of Message::Unflatten.
+
+   For a fixed received buffer [bs] (L = its length, L < 2^31) every function of the model is shown to satisfy one
+   combined specification [safe F B m]: started on a reader whose window lies inside the buffer ([rok]) and a log whose
+   accesses are all in bounds ([lok]), it ends with such a reader and such a log, leaves the window (base, limit) alone,
+   never moves the cursor backwards, never reaches an MCRASH, loads no non-boolean byte into a bool, does not run out of
+   fuel when the fuel exceeds the bytes available ([F]), and deepens the recorded nesting level by at most what the
+   bytes available can pay for at 28 bytes per level ([B]).  The loops go by induction on their fuel, Message::Unflatten
+   by induction on the nesting fuel with the next level as hypothesis. *)
 From Coq Require Import List NArith Bool Lia ZifyBool Strings.Byte.
 From Muscle Require Import Gen.Consts Msg.MsgDefs Msg.MsgInstr.
 Import ListNotations.
 Local Open Scope N_scope.
 
-Lemma len_nonneg {A} (l : list A) : 0 <= len l.
-Proof. lia. Qed.
+(* ------------------------------------------------------------------ lists measured in N *)
+Lemma len_nat {A} (l : list A) : len l = N.of_nat (length l).
+Proof. induction l as [|x t IH]; cbn [len length]; [reflexivity | rewrite IH; lia]. Qed.
+
+Lemma len_nil_iff {A} (l : list A) : len l = 0 <-> l = [].
+Proof. destruct l; cbn [len]; split; intro H; try reflexivity; try discriminate; lia. Qed.
+
+Lemma len_takeN {A} (k : N) (l : list A) : len (takeN k l) = N.min k (len l).
+Proof.
+  revert k; induction l as [|x t IH]; intro k; cbn [takeN len]; [lia|].
+  destruct (N.eqb_spec k 0) as [->|Hk]; cbn [len]; [lia|].
+  rewrite IH. lia.
+Qed.
+
+Lemma len_dropN {A} (k : N) (l : list A) : len (dropN k l) = len l - k.
+Proof.
+  revert k; induction l as [|x t IH]; intro k; cbn [dropN len]; [lia|].
+  destruct (N.eqb_spec k 0) as [->|Hk]; cbn [len]; [lia|].
+  rewrite IH. lia.
+Qed.
+
+Lemma len_app {A} (a b : list A) : len (a ++ b) = len a + len b.
+Proof. induction a as [|x t IH]; cbn [app len]; [lia | rewrite IH; lia]. Qed.
+
+Lemma nul_index_bounds (w : bytes) (i k : N) : nul_index w i = Some k -> i <= k /\ k < i + len w.
+Proof.
+  revert i; induction w as [|b t IH]; intro i; cbn [nul_index len]; [discriminate|].
+  destruct (is_nul b).
+  - intro H; injection H as <-. lia.
+  - intro H. apply IH in H. lia.
+Qed.
+
+(* ------------------------------------------------------------------ the invariant *)
+Section Safety.
+  Variable bs : bytes.
+  Let L : N := len bs.
+  Hypothesis HL : L < 2147483648.
+
+  Definition rok (r : rdr) : Prop := r_base r + r_max r <= L /\ r_rd r <= r_max r.
+  Definition lok (l : log) : Prop := Forall (in_bounds L) (l_tr l).
+  Definition frame (r r' : rdr) : Prop := r_base r' = r_base r /\ r_max r' = r_max r /\ r_rd r <= r_rd r'.
+
+  (* [F]: when does the fuel suffice;  [B]: 28 * (deepest level this call may record) *)
+  Definition safe {A} (F : rdr -> Prop) (B : rdr -> N) (m : M A) : Prop :=
+    forall r l, rok r -> lok l ->
+      let '(x, r', l') := m r l in
+      rok r' /\ frame r r' /\ lok l' /\ x <> Crash /\ (F r -> x <> Fuel) /\ l_ub l' = l_ub l /\
+      (l_dp l' <= l_dp l \/ 28 * l_dp l' <= B r).
+
+  Lemma NOLIM_val : NOLIM = 4294967295.  Proof. reflexivity. Qed.
+  Lemma W_val : W = 4.  Proof. reflexivity. Qed.
+
+  Lemma avail_ok r : rok r -> avail r = r_max r - r_rd r.
+  Proof.
+    intros [H1 H2]. unfold avail. rewrite NOLIM_val.
+    destruct (N.eqb_spec (r_max r) 4294967295); [lia|].
+    destruct (N.ltb_spec (r_rd r) (r_max r)); lia.
+  Qed.
+
+  Lemma lok_touch o k l : lok l -> o + k <= L -> lok (touch o k l).
+  Proof. intros H Hb. unfold lok, touch; cbn [l_tr]. constructor; [exact Hb | exact H]. Qed.
+
+  Lemma frame_refl r : frame r r.
+  Proof. unfold frame; repeat split; lia. Qed.
+
+  Lemma frame_trans a b c : frame a b -> frame b c -> frame a c.
+  Proof. unfold frame; intros (A1 & A2 & A3) (B1 & B2 & B3); repeat split; lia. Qed.
+
+  (* ---------------------------------------------------------------- generic rules *)
+  Lemma safe_ret {A} F B (a : A) : safe F B (ret a).
+  Proof.
+    intros r l Hr Hl; cbn. repeat split; try (apply Hr) ; try lia; try assumption; try discriminate.
+    left; lia.
+  Qed.
+
+  Lemma safe_err {A} F B : safe F B (@err A).
+  Proof.
+    intros r l Hr Hl; cbn. repeat split; try (apply Hr); try lia; try assumption; try discriminate.
+    left; lia.
+  Qed.
+
+  (* sequential composition: the second part runs on a reader that has only moved forwards inside the same window *)
+  Lemma safe_bnd {A C} (F : rdr -> Prop) (B : rdr -> N) (F1 : rdr -> Prop) (B1 : rdr -> N)
+        (F2 : A -> rdr -> Prop) (B2 : A -> rdr -> N) (m : M A) (f : A -> M C) :
+    safe F1 B1 m -> (forall a, safe (F2 a) (B2 a) (f a)) ->
+    (forall r, rok r -> F r -> F1 r) ->
+    (forall r r' a, rok r -> rok r' -> frame r r' -> F r -> F2 a r') ->
+    (forall r, rok r -> B1 r <= B r) ->
+    (forall r r' a, rok r -> rok r' -> frame r r' -> B2 a r' <= B r) ->
+    safe F B (bnd m f).
+  Proof.
+    intros Hm Hf HF1 HF2 HB1 HB2 r l Hr Hl. unfold bnd.
+    specialize (Hm r l Hr Hl). destruct (m r l) as [[x r1] l1].
+    destruct Hm as (Hr1 & Hfr1 & Hl1 & Hc1 & Hfu1 & Hub1 & Hd1).
+    assert (Hdep : l_dp l1 <= l_dp l \/ 28 * l_dp l1 <= B r).
+    { destruct Hd1 as [Hd1|Hd1]; [left; exact Hd1 | right; specialize (HB1 r Hr); lia]. }
+    destruct x as [a| | |].
+    - specialize (Hf a r1 l1 Hr1 Hl1). destruct (f a r1 l1) as [[y r2] l2].
+      destruct Hf as (Hr2 & Hfr2 & Hl2 & Hc2 & Hfu2 & Hub2 & Hd2).
+      repeat split; try (apply Hr2); try assumption.
+      + destruct Hfr1 as (X1 & X2 & X3), Hfr2 as (Y1 & Y2 & Y3). lia.
+      + destruct Hfr1 as (X1 & X2 & X3), Hfr2 as (Y1 & Y2 & Y3). lia.
+      + destruct Hfr1 as (X1 & X2 & X3), Hfr2 as (Y1 & Y2 & Y3). lia.
+      + intro HFr. apply Hfu2. eapply HF2; eauto.
+      + lia.
+      + destruct Hd2 as [Hd2|Hd2].
+        * destruct Hdep as [Hd|Hd]; [left; lia | right; lia].
+        * right. specialize (HB2 r r1 a Hr Hr1 Hfr1). lia.
+    - repeat split; try (apply Hr1); try assumption; try (apply Hfr1); try discriminate.
+    - repeat split; try (apply Hr1); try assumption; try (apply Hfr1); try discriminate.
+      intro HFr. apply Hfu1. apply HF1; assumption.
+    - repeat split; try (apply Hr1); try assumption; try (apply Hfr1).
+  Qed.
+
+  (* weakening of the fuel condition and the depth bound *)
+  Lemma safe_weaken {A} (F F' : rdr -> Prop) (B B' : rdr -> N) (m : M A) :
+    safe F' B' m -> (forall r, rok r -> F r -> F' r) -> (forall r, rok r -> B' r <= B r) -> safe F B m.
+  Proof.
+    intros Hm HF HB r l Hr Hl. specialize (Hm r l Hr Hl). destruct (m r l) as [[x r1] l1].
+    destruct Hm as (A1 & A2 & A3 & A4 & A5 & A6 & A7).
+    repeat split; try (apply A1); try (apply A2); try assumption.
+    - intro H; apply A5, HF; assumption.
+    - destruct A7 as [A7|A7]; [left; assumption | right; specialize (HB r Hr); lia].
+  Qed.
+End Safety.
